@@ -244,7 +244,10 @@ def nontrivial(case, labels):
 
 
 def run_shard(spec, seed):
-    return progrun.run_program_shard(spec, seed, check, nontrivial, exclude_only=EXCLUDE, case_extra=lambda prog: {"masked": len(prog["stmts"]) % 3 == 0, "persist": True})
+    # creation-function leaves (ones/zeros/full) put a per-block shape literal inside fused groups: the
+    # block-independence analysis of the records path must notice it on irregular chunkings
+    kw = {"leaf_kinds": ("numpy", "numpy", "numpy", "ones", "zeros", "full")}
+    return progrun.run_program_shard(spec, seed, check, nontrivial, exclude_only=EXCLUDE, strategy_kwargs=kw, case_extra=lambda prog: {"masked": len(prog["stmts"]) % 3 == 0, "persist": True})
 
 
 def plan(tier):
